@@ -286,6 +286,39 @@ Proof.
   - vm_compute. repeat constructor.
 Qed.
 
+(* Sixth wave: the attribute that REFERENCES the prototype is itself a deferring attribute
+   (ref = DelegatesTo('parent') onto an inner object whose ref holds the prototype; x = PrototypedFrom('ref')).
+   The model needs nothing new - [read], [walk] and [depends_on] read the reference through [rd], whatever trait
+   it is - and the history invariant forward_iff_linked_general covers the shape (no hypothesis asks the
+   reference to be a Link): a local assignment detaches the forwarder (the prototype's next change is not forwarded:
+   2 events instead of 3), del re-attaches it (exactly one notification of x), a swap through the inner object
+   notifies ref and nobody else, and the law holds on the whole history. *)
+Definition REF := [22%nat].
+Definition inn_r : cls := mkC [10%nat] [(PARENT, Link); (REF, Link)] [].
+Definition top_r : cls := mkC [11%nat] [(PARENT, Link); (REF, Deleg PARENT RSame true); (X, Deleg REF RSame false);
+                                         (Y, Deleg REF (RExplicit X) true)] [].
+Definition pool_r : list obj := [mkO 0 []; mkO 0 []; mkO 1 [(REF, VObj 0%nat)]; mkO 2 [(PARENT, VObj 2%nat)]].
+Example deferring_reference_covered :
+  let ops := [Set_ 0 X (VInt 5); Set_ 3 X (VInt 9); Set_ 0 X (VInt 6); Del 3 X; Set_ 0 X (VInt 7);
+              Set_ 2 REF (VObj 1%nat); Set_ 1 X (VInt 8); Set_ 3 Y (VInt 4)]%nat in
+  let st0r := init_state_k [par; inn_r; top_r] pool_r in
+  let st := final st0r ops in
+  map (fun p => length (ob_events (snd p))) (run st0r ops) = [3; 1; 2; 1; 3; 1; 3; 3]%nat
+  /\ nth 2 (map (fun p => ob_events (snd p)) (run st0r ops)) [] = [(0%nat, X, VInt 6); (3%nat, Y, VInt 6)]
+  /\ nth 5 (map (fun p => ob_events (snd p)) (run st0r ops)) [] = [(3%nat, REF, VObj 1%nat)]
+  /\ law_hist (mkG (classes st0r) (map o_cls (objs st0r))) 0 [] (mkObs Done [] (snapshot st0r) (locals st0r)) (run st0r ops) = []
+  /\ (has_node (3%nat, X) (ltab st) = true <->
+      (deferring st 3%nat X /\ dict_get st 3%nat X = None /\ listenable st 3%nat X = true)).
+Proof.
+  intros ops st0r st. split; [vm_compute; reflexivity|]. split; [vm_compute; reflexivity|].
+  split; [vm_compute; reflexivity|]. split; [vm_compute; reflexivity|].
+  refine (proj1 (proj2 (forward_iff_linked_general [par; inn_r; top_r] pool_r ops _ _ _)) 3%nat X _).
+  - apply wf_classesb_sound. vm_compute. reflexivity.
+  - apply modify_no_localb_sound. vm_compute. reflexivity.
+  - unfold ops. repeat constructor.
+  - vm_compute. repeat constructor.
+Qed.
+
 (* Non-vacuity: a pool meeting all hypotheses of the theorems above (chain of two deferrals, the '*'
    style included), with a history that stores through the chain, breaks and restores a link, is
    rejected by the target's trait, and forwards notifications up the chain. *)
